@@ -339,6 +339,12 @@ theorem kcenters_terminates (D : Table) (n : Nat) (cfg : Cfg) (nc : Option Int) 
       · intro extra
         rw [loop_fuel_add _ _ hno extra]
 
+example : normalise .npInf (.val 1) = .ok (none, some 1) ∧ (∀ c, c < 5 → line5 c c ≤ 1) :=
+  ⟨by decide, by decide⟩
+example : view 5 (kcenters line5 5 { cutoff := .val 1 }) =
+    some ⟨[0, 1, 4], [0, 1, 4], [0, 1, 0, 1, 2], [some 0, some 0, some 1, some 1, some 0],
+      [(0, none), (1, some 4), (4, some 2)], some 1⟩ := by decide
+
 /-! ## the triangle-inequality shortcut changes nothing -/
 
 /-- The property as stated: for every table that is symmetric with the triangle inequality on all
